@@ -5,6 +5,7 @@ import (
 	"go/ast"
 	"go/token"
 	"go/types"
+	"os"
 	"regexp"
 	"sort"
 	"strings"
@@ -1662,10 +1663,14 @@ func ruleLaneIntegrity(c *Ctx, rule string) {
 	c.floor(rule, "success returns of buildPoolStmtsSimple", nRet, 1)
 	// (b)
 	nSt := 0
+	inBuild := map[*ssa.Function]bool{}
+	for _, f := range chainBuilders(L, bs) {
+		inBuild[f] = true
+	}
 	for _, fn := range pkgFuncs(L, genPkg) {
 		for _, st := range storesToField([]*ssa.Function{fn}, "internal/kessoku.InjectorChainStmt.Statements") {
 			nSt++
-			c.check(fn == bs && isPoolResult(st.Val), rule, fnName(fn)+":chain-is-one-whole-pool", L.pos(st.Pos()),
+			c.check(inBuild[fn] && isPoolResult(st.Val), rule, fnName(fn)+":chain-is-one-whole-pool", L.pos(st.Pos()),
 				"the statements of a goroutine are exactly the statements of one pool, set once", "stored value: "+describe(resolve(st.Val)))
 		}
 	}
@@ -1679,6 +1684,15 @@ func ruleLaneIntegrity(c *Ctx, rule string) {
 		seen[v] = true
 		if isPoolResult(v) {
 			return true, "" // the list starts as one whole pool
+		}
+		// the list handed through a private helper (as an argument, or back as one of its results)
+		if vs, ok := threaded(L, v); ok {
+			for _, w := range vs {
+				if ok, why := spreads(w, seen); !ok {
+					return false, why
+				}
+			}
+			return true, ""
 		}
 		switch x := v.(type) {
 		case *ssa.MakeSlice:
@@ -3574,9 +3588,17 @@ func ruleWireAliasThreaded(c *Ctx, rule string) {
 	// string parameters (first string parameter after the *types.Info)
 	aliasIdx := -1
 	for i, p := range pce.Params {
-		if p.Type().String() == "string" {
+		if p.Type().String() == "string" && comparedWithIdentName(p, 0) {
 			aliasIdx = i
 			break
+		}
+	}
+	if aliasIdx < 0 {
+		for i, p := range pce.Params {
+			if p.Type().String() == "string" {
+				aliasIdx = i
+				break
+			}
 		}
 	}
 	if aliasIdx < 0 {
@@ -3624,11 +3646,18 @@ func ruleSyncJoinsItsInputs(c *Ctx, rule string) {
 	if fn == nil {
 		return
 	}
+	// the node being placed: the parameter of type *node (wherever it stands in the parameter list)
+	nodeParam := ""
+	for _, q := range fn.Params[1:] {
+		if q.Type().String() == "*"+genPkg+".node" {
+			nodeParam = q.Name()
+		}
+	}
 	isOwnAsync := func(v ssa.Value) bool {
 		s := newSym(L, map[string]bool{})
 		s.maxD = 2
 		for _, t := range s.eval(v) {
-			if strings.Contains(t, "field:internal/kessoku.ProviderSpec.IsAsync(field:internal/kessoku.node.providerSpec(param:"+fn.Params[1].Name()+")") {
+			if strings.Contains(t, "field:internal/kessoku.ProviderSpec.IsAsync(field:internal/kessoku.node.providerSpec(param:"+nodeParam+")") {
 				return true
 			}
 		}
@@ -4573,4 +4602,264 @@ func ruleTypeExprsNotShared(c *Ctx, rule string) {
 		}
 	}
 	c.floor(rule, "returns of the type renderer", n, 5)
+}
+
+// chainBuilders: buildStmts and the private helpers it alone calls (family) that create goroutine statements - a phase of
+// buildStmts lifted into a function of its own.
+func chainBuilders(L *Loaded, bs *ssa.Function) []*ssa.Function {
+	out := []*ssa.Function{bs}
+	for _, f := range family(L, bs) {
+		if f == bs || f.Parent() != nil {
+			continue
+		}
+		makes := false
+		for _, b := range f.Blocks {
+			for _, in := range b.Instrs {
+				if al, ok := in.(*ssa.Alloc); ok {
+					if n, _ := isAstNodeType(al.Type()); n == "InjectorChainStmt" {
+						makes = true
+					}
+				}
+			}
+		}
+		if makes {
+			out = append(out, f)
+		}
+	}
+	return out
+}
+
+// comparedWithIdentName: the string parameter is compared with the Name of an *ast.Ident - in the function itself or in a
+// helper of the same package it is handed to.
+func comparedWithIdentName(p *ssa.Parameter, depth int) bool {
+	if p.Referrers() == nil || depth > 2 {
+		return false
+	}
+	isIdentName := func(v ssa.Value) bool {
+		u, ok := resolve(v).(*ssa.UnOp)
+		if !ok || u.Op != token.MUL {
+			return false
+		}
+		fa, ok := u.X.(*ssa.FieldAddr)
+		return ok && fieldKey(fa) == "go/ast.Ident.Name"
+	}
+	for _, r := range *p.Referrers() {
+		switch x := r.(type) {
+		case *ssa.BinOp:
+			if (x.Op == token.EQL || x.Op == token.NEQ) && (isIdentName(x.X) || isIdentName(x.Y)) {
+				return true
+			}
+		case ssa.CallInstruction:
+			g := x.Common().StaticCallee()
+			if g == nil || g.Pkg != p.Parent().Pkg || len(g.Blocks) == 0 {
+				continue
+			}
+			for i, a := range x.Common().Args {
+				if a == ssa.Value(p) && i < len(g.Params) && comparedWithIdentName(g.Params[i], depth+1) {
+					return true
+				}
+			}
+		}
+	}
+	return false
+}
+
+// ruleAliasSpelledAsDeclared: a type the user wrote as an alias is printed as that alias. What the alias stands for may be a
+// type the output cannot name (unexported, or in another module's internal package), so no function that prints types or
+// collects their imports is handed the result of resolving an alias (types.Unalias, Alias.Rhs, Alias.Underlying).
+func ruleAliasSpelledAsDeclared(c *Ctx, rule string) {
+	L := c.L
+	isSink := func(f *ssa.Function) bool {
+		if f == nil || f.Pkg == nil || f.Pkg.Pkg.Path() != genPkg || !L.NonTest[originOf(f)] {
+			return false
+		}
+		sg := f.Signature
+		takes := false
+		for i := 0; i < sg.Params().Len(); i++ {
+			if sg.Params().At(i).Type().String() == "go/types.Type" {
+				takes = true
+			}
+		}
+		if !takes {
+			return false
+		}
+		for i := 0; i < sg.Results().Len(); i++ {
+			if sg.Results().At(i).Type().String() == "go/ast.Expr" {
+				return true
+			}
+		}
+		// the import collector: takes the import table
+		for i := 0; i < sg.Params().Len(); i++ {
+			if strings.Contains(sg.Params().At(i).Type().String(), genPkg+".Import") {
+				return true
+			}
+		}
+		return false
+	}
+	nSinks, nSrc := 0, 0
+	for _, fn := range pkgFuncs(L, genPkg) {
+		if isSink(fn) {
+			nSinks++
+			c.seen(fnName(fn))
+		}
+		for _, cs := range callsIn(fn) {
+			switch cs.callee {
+			case "go/types.Unalias", "(*go/types.Alias).Rhs", "(*go/types.Alias).Underlying":
+			default:
+				continue
+			}
+			if cs.value() == nil {
+				continue
+			}
+			nSrc++
+			seen := map[ssa.Value]bool{}
+			var flow func(v ssa.Value, d int)
+			flow = func(v ssa.Value, d int) {
+				if seen[v] || d > 8 || v.Referrers() == nil {
+					return
+				}
+				seen[v] = true
+				for _, r := range *v.Referrers() {
+					switch x := r.(type) {
+					case *ssa.TypeAssert:
+						flow(x, d+1)
+					case *ssa.Extract:
+						flow(x, d+1)
+					case *ssa.Phi:
+						flow(x, d+1)
+					case *ssa.MakeInterface:
+						flow(x, d+1)
+					case *ssa.ChangeInterface:
+						flow(x, d+1)
+					case *ssa.ChangeType:
+						flow(x, d+1)
+					case ssa.CallInstruction:
+						if g := x.Common().StaticCallee(); isSink(g) {
+							for _, a := range x.Common().Args {
+								if a == v {
+									c.fail(rule, fnName(fn)+":alias-resolved-before-"+g.Name(), L.pos(x.Pos()),
+										"an alias is printed (and its import collected) under the name the user wrote; here what it stands for is handed to "+g.Name()+", which may be a type the generated file cannot name", cs.callee)
+								}
+							}
+						}
+					}
+				}
+			}
+			flow(cs.value(), 0)
+		}
+	}
+	c.floor(rule, "functions that print types or collect their imports", nSinks, 2)
+	c.ok(rule, "no resolved alias reaches a type printer", fmt.Sprintf("%d alias resolutions inspected, %d printers", nSrc, nSinks))
+}
+
+// ruleReadinessByFirstNode: a dependent pool is emitted as soon as everything its FIRST node takes is scheduled. The later
+// nodes of a pool may take values of pools that in turn take values of this pool's earlier nodes (the done-channels
+// resolve that at run time), so a readiness test that looks at the other nodes as well can leave two pools waiting for
+// each other at generation time - and the loop then ends without emitting them, silently: their closes are never
+// generated while the surviving statements still wait for them. Every membership test on the scheduled-set in buildStmts
+// asks for a dependency (reverseEdges) of element 0 of the pool.
+func ruleReadinessByFirstNode(c *Ctx, rule string) {
+	L := c.L
+	bs := genFn(c, rule, "(*Graph).buildStmts")
+	if bs == nil {
+		return
+	}
+	n := 0
+	for _, fn := range family(L, bs) {
+		if fn == resolveRole(c, genPkg, "(*Graph).buildPoolStmtsSimple") {
+			continue
+		}
+		for _, b := range fn.Blocks {
+			for _, in := range b.Instrs {
+				lk, ok := in.(*ssa.Lookup)
+				if !ok || !strings.Contains(lk.X.Type().String(), "map[*"+genPkg+".node]struct{}") {
+					continue
+				}
+				n++
+				s := newSym(L, map[string]bool{})
+				s.maxD = 0
+				term := strings.Join(s.eval(lk.Index), "|")
+				if os.Getenv("KVERIF_DEBUG") != "" {
+					fmt.Fprintf(os.Stderr, "readiness key: %s\n", term)
+				}
+				okShape := readinessKeyOfFirstNode(L, lk.Index)
+				c.check(okShape, rule, fnName(bs)+":pool-ready-when-first-node-is", L.pos(lk.Pos()),
+					"a pool is ready when the dependencies of its first node are scheduled (a stricter test can starve mutually dependent pools, which are then dropped without an error)", term)
+			}
+		}
+	}
+	c.floor(rule, "membership tests on the scheduled set in buildStmts", n, 1)
+}
+
+// readinessKeyOfFirstNode: v is an element of reverseEdges[p[0]] for some pool p.
+func readinessKeyOfFirstNode(L *Loaded, v ssa.Value) bool {
+	isFirst := func(k ssa.Value) bool {
+		var first func(k ssa.Value, d int) bool
+		first = func(k ssa.Value, d int) bool {
+			k = resolve(k)
+			if p, isP := k.(*ssa.Parameter); isP && d < 3 {
+				vs, ok := threaded(L, p)
+				if !ok {
+					return false
+				}
+				for _, w := range vs {
+					if !first(w, d+1) {
+						return false
+					}
+				}
+				return true
+			}
+			ku, ok := k.(*ssa.UnOp)
+			if !ok || ku.Op != token.MUL {
+				return false
+			}
+			kia, ok := ku.X.(*ssa.IndexAddr)
+			if !ok {
+				return false
+			}
+			i, isC := constInt(kia.Index)
+			return isC && i == 0 && strings.HasSuffix(kia.X.Type().String(), "[]*"+genPkg+".node")
+		}
+		return first(k, 0)
+	}
+	// the dependency list: a lookup in the reverseEdges field under the pool's first node
+	isDeps := func(l ssa.Value) bool {
+		lk, ok := resolve(l).(*ssa.Lookup)
+		if !ok {
+			return false
+		}
+		fld, ok := resolve(lk.X).(*ssa.UnOp)
+		if !ok {
+			return false
+		}
+		fa, ok := fld.X.(*ssa.FieldAddr)
+		if !ok || fieldKey(fa) != "internal/kessoku.Graph.reverseEdges" {
+			return false
+		}
+		return isFirst(lk.Index)
+	}
+	switch x := resolve(v).(type) {
+	case *ssa.UnOp:
+		// element of the list, read in a loop over it
+		if x.Op != token.MUL {
+			return false
+		}
+		ia, ok := x.X.(*ssa.IndexAddr)
+		return ok && isDeps(ia.X)
+	case *ssa.Parameter:
+		// the element handed to a predicate closure by a library scan of the list (slices.ContainsFunc(list, func(d) bool {...}))
+		cl := x.Parent()
+		if cl.Parent() == nil {
+			return false
+		}
+		for _, cs := range callsIn(cl.Parent()) {
+			if !strings.HasPrefix(cs.callee, "slices.") || len(cs.common.Args) != 2 {
+				continue
+			}
+			if mc, ok := cs.common.Args[1].(*ssa.MakeClosure); ok && mc.Fn == ssa.Value(cl) {
+				return isDeps(cs.common.Args[0])
+			}
+		}
+	}
+	return false
 }
